@@ -1,2 +1,643 @@
-// Package c18 is the check for property C18 (see DESIGN.md section 3).
+// Package c18: managed mode rewrites only what it governs.
+//
+// Bounded-exhaustive exploration of bufimagemodify.Modify on 4 fixture images x every managed
+// configuration of an explicitly bounded space, each configuration written as buf.gen.yaml text (v2, and a
+// v1 space of its own) and parsed by bufconfig.ReadBufGenYAMLFile. The oracle is the hand-written reference
+// model in model.go (who is exempt, which override wins, how prefix/suffix compose), the frame condition
+// (after reverting the governed options the descriptor must equal the input) and a source-info model
+// (exactly the locations of the rewritten options and their emptied parents disappear).
 package c18
+
+import (
+	"context"
+	"fmt"
+	"strings"
+	"time"
+
+	"github.com/bufbuild/buf/private/bufpkg/bufconfig"
+	"github.com/bufbuild/buf/private/bufpkg/bufimage"
+	"github.com/bufbuild/buf/private/bufpkg/bufimage/bufimagemodify"
+	"github.com/bufbuild/bufverif/internal/enum"
+	"github.com/bufbuild/bufverif/internal/evid"
+	"google.golang.org/protobuf/proto"
+)
+
+func init() {
+	evid.Register(&evid.Check{ID: "C18", Level: "exploration", Run: run, QuickBudget: 100 * time.Second, ThoroughBudget: 14 * time.Minute})
+}
+
+type scope struct{ Path, Module string }
+
+func scopes(quick bool) []scope {
+	s := []scope{{}, {Path: pathDir}, {Path: pathFile}, {Module: moduleOne}, {Module: moduleTwo}, {Path: pathWKT}}
+	if !quick {
+		s = append(s, scope{Path: pathFile, Module: moduleOne}, scope{Path: "."})
+	}
+	return s
+}
+
+// tmpl is an override rule whose string value depends on its position in the sequence, so that two rules
+// for the same option never carry the same value and "which one won" is observable.
+type tmpl struct {
+	Opt   string // file option name, or jstype
+	Scope scope
+	Field string
+	Fixed string // bool / enum value ("" = positional string value)
+}
+
+var stringValueFormat = map[string]string{
+	"java_package":                  "ov%d.pkg",
+	"java_package_prefix":           "pre%d",
+	"java_package_suffix":           "suf%d",
+	"java_outer_classname":          "Ov%dOuter",
+	"go_package":                    "example.com/ov%d;ovpb",
+	"go_package_prefix":             "example.com/gp%d",
+	"objc_class_prefix":             "OV%d",
+	"csharp_namespace":              "Ov%d.Ns",
+	"csharp_namespace_prefix":       "Pre%d",
+	"php_namespace":                 `Ov%d\Ns`,
+	"php_metadata_namespace":        `Ov%d\Meta`,
+	"php_metadata_namespace_suffix": "Suf%d",
+	"ruby_package":                  "Ov%d::Ns",
+	"ruby_package_suffix":           "Suf%d",
+}
+
+func (t tmpl) at(pos int) Override {
+	o := Override{Path: t.Scope.Path, Module: t.Scope.Module, Field: t.Field}
+	if t.Opt == jstype {
+		o.FieldOption, o.Value = jstype, t.Fixed
+		return o
+	}
+	o.FileOption = t.Opt
+	if t.Fixed != "" {
+		o.Value = t.Fixed
+		o.Bool = t.Fixed == "true" || t.Fixed == "false"
+		return o
+	}
+	o.Value = fmt.Sprintf(stringValueFormat[t.Opt], pos)
+	return o
+}
+
+// block is one sub-space: every override sequence (length <= maxLen over tmpls) x every set of <= 2 disables.
+type block struct {
+	Name     string
+	Tmpls    []tmpl
+	Seqs     [][]int
+	Disables []Disable
+	Sets     [][]int
+}
+
+func (b *block) size() int { return len(b.Seqs) * len(b.Sets) }
+
+func (b *block) config(i int) Config {
+	seq, set := b.Seqs[i/len(b.Sets)], b.Sets[i%len(b.Sets)]
+	c := Config{Enabled: true}
+	for pos, ti := range seq {
+		c.Overrides = append(c.Overrides, b.Tmpls[ti].at(pos+1))
+	}
+	for _, di := range set {
+		c.Disables = append(c.Disables, b.Disables[di])
+	}
+	return c
+}
+
+func scopeDisables(sc []scope) []Disable {
+	var out []Disable
+	for _, s := range sc {
+		if s.Path == "" && s.Module == "" {
+			continue // an empty disable rule is rejected by buf
+		}
+		out = append(out, Disable{Path: s.Path, Module: s.Module})
+	}
+	return out
+}
+
+func familyBlocks(quick bool) []*block {
+	sc := scopes(quick)
+	var blocks []*block
+	for i := range families {
+		fam := &families[i]
+		b := &block{Name: fam.Value}
+		var fixed []string
+		switch fam.Kind {
+		case kindBool:
+			fixed = []string{"true", "false"}
+		case kindEnum:
+			fixed = []string{"CODE_SIZE", "SPEED"}
+			if !quick {
+				fixed = append(fixed, "LITE_RUNTIME")
+			}
+		default:
+			fixed = []string{""}
+		}
+		for _, opt := range []string{fam.Value, fam.Prefix, fam.Suffix} {
+			if opt == "" {
+				continue
+			}
+			for _, s := range sc {
+				for _, v := range fixed {
+					b.Tmpls = append(b.Tmpls, tmpl{Opt: opt, Scope: s, Fixed: v})
+				}
+			}
+		}
+		maxLen := 2
+		if !quick && (fam.Prefix != "" || fam.Suffix != "") {
+			maxLen = 3 // value/prefix/suffix interplay
+		}
+		if !quick && maxLen == 3 && len(b.Tmpls) > 16 {
+			// keep length-3 sequences affordable: drop the two extra thorough scopes for the 3-option family
+			var keep []tmpl
+			for _, t := range b.Tmpls {
+				if t.Scope.Path != "." && !(t.Scope.Path != "" && t.Scope.Module != "") {
+					keep = append(keep, t)
+				}
+			}
+			b.Tmpls = keep
+		}
+		b.Seqs = enum.Sequences(len(b.Tmpls), 0, maxLen)
+		// disable rules that can matter to this family, plus three that must not
+		b.Disables = scopeDisables(sc)
+		for _, opt := range []string{fam.Value, fam.Prefix, fam.Suffix} {
+			if opt != "" {
+				b.Disables = append(b.Disables, Disable{FileOption: opt})
+			}
+		}
+		b.Disables = append(b.Disables,
+			Disable{FileOption: fam.Value, Module: moduleOne},
+			Disable{FileOption: fam.Value, Path: pathFile},
+		)
+		if fam.Prefix != "" {
+			b.Disables = append(b.Disables, Disable{FileOption: fam.Prefix, Module: moduleOne})
+		}
+		other := "java_multiple_files"
+		if fam.Value == other {
+			other = "go_package"
+		}
+		b.Disables = append(b.Disables, Disable{FileOption: other}, Disable{FieldOption: jstype}, Disable{Field: fieldA})
+		b.Sets = enum.Subsets(len(b.Disables), 0, 2)
+		blocks = append(blocks, b)
+	}
+	// jstype
+	jb := &block{Name: jstype}
+	values := []string{"JS_STRING", "JS_NORMAL"}
+	if !quick {
+		values = append(values, "JS_NUMBER")
+	}
+	for _, v := range values {
+		for _, s := range sc {
+			jb.Tmpls = append(jb.Tmpls, tmpl{Opt: jstype, Scope: s, Fixed: v})
+		}
+		jb.Tmpls = append(jb.Tmpls,
+			tmpl{Opt: jstype, Field: fieldA, Fixed: v},
+			tmpl{Opt: jstype, Field: fieldB, Fixed: v},
+			tmpl{Opt: jstype, Field: fieldA, Scope: scope{Path: pathFile}, Fixed: v},
+		)
+	}
+	jb.Seqs = enum.Sequences(len(jb.Tmpls), 0, 2)
+	jb.Disables = append(scopeDisables(sc),
+		Disable{FieldOption: jstype},
+		Disable{FieldOption: jstype, Field: fieldA},
+		Disable{FieldOption: jstype, Field: fieldB},
+		Disable{FieldOption: jstype, Path: pathFile},
+		Disable{FieldOption: jstype, Module: moduleOne},
+		Disable{FieldOption: jstype, Field: fieldA, Module: moduleTwo},
+		Disable{Field: fieldA},
+		Disable{Field: fieldA, Path: pathFile},
+		Disable{FileOption: "java_package"},
+	)
+	jb.Sets = enum.Subsets(len(jb.Disables), 0, 2)
+	blocks = append(blocks, jb)
+	return blocks
+}
+
+// allDisables is the union alphabet used by the cross-family block.
+func allDisables(quick bool) []Disable {
+	out := scopeDisables(scopes(quick))
+	for i := range families {
+		for _, opt := range []string{families[i].Value, families[i].Prefix, families[i].Suffix} {
+			if opt != "" {
+				out = append(out, Disable{FileOption: opt})
+			}
+		}
+		out = append(out, Disable{FileOption: families[i].Value, Module: moduleOne})
+	}
+	out = append(out,
+		Disable{FieldOption: jstype},
+		Disable{FieldOption: jstype, Field: fieldA},
+		Disable{FieldOption: jstype, Path: pathFile},
+		Disable{Field: fieldA},
+	)
+	return out
+}
+
+// crossConfigs: every governed option key overridden at once (same scope), in table order and reversed,
+// x every set of <= 2 disables over the union alphabet. These are the configurations where rules of
+// different families meet.
+func crossConfigs(quick bool) []Config {
+	var lists [][]Override
+	lists = append(lists, nil)
+	for _, s := range scopes(quick) {
+		var l []Override
+		pos := 1
+		for i := range families {
+			fam := &families[i]
+			for _, opt := range []string{fam.Value, fam.Prefix, fam.Suffix} {
+				if opt == "" {
+					continue
+				}
+				t := tmpl{Opt: opt, Scope: s}
+				switch fam.Kind {
+				case kindBool:
+					t.Fixed = map[string]string{"java_multiple_files": "false", "java_string_check_utf8": "true", "cc_enable_arenas": "false"}[opt]
+				case kindEnum:
+					t.Fixed = "LITE_RUNTIME"
+				}
+				l = append(l, t.at(pos))
+			}
+		}
+		l = append(l, tmpl{Opt: jstype, Scope: s, Fixed: "JS_STRING"}.at(pos))
+		lists = append(lists, l)
+		rev := make([]Override, len(l))
+		for i := range l {
+			rev[len(l)-1-i] = l[i]
+		}
+		lists = append(lists, rev)
+	}
+	dis := allDisables(quick)
+	var out []Config
+	for _, l := range lists {
+		for _, set := range enum.Subsets(len(dis), 0, 2) {
+			c := Config{Enabled: true, Overrides: l}
+			for _, di := range set {
+				c.Disables = append(c.Disables, dis[di])
+			}
+			out = append(out, c)
+		}
+	}
+	return out
+}
+
+// v1Configs enumerates the v1 space: per option block every shape of {default, except, override} crossed
+// with a per-file override of the same option, plus all blocks at once.
+func v1Configs() []V1Config {
+	var out []V1Config
+	half := "acme/one/v1/half.proto"
+	perFile := func(opt string, vals ...string) []map[string]map[string]string {
+		res := []map[string]map[string]string{nil}
+		for _, v := range vals {
+			res = append(res, map[string]map[string]string{opt: {pathFile: v}})
+		}
+		res = append(res, map[string]map[string]string{opt: {pathFile: vals[0], half: vals[len(vals)-1]}})
+		return res
+	}
+	// bool options
+	for _, opt := range []string{"cc_enable_arenas", "java_multiple_files", "java_string_check_utf8"} {
+		for _, v := range []string{"", "true", "false"} {
+			for _, pf := range perFile(opt, "true", "false") {
+				c := V1Config{Enabled: true, PerFile: pf}
+				switch opt {
+				case "cc_enable_arenas":
+					c.CcEnableArenas = v
+				case "java_multiple_files":
+					c.JavaMultipleFiles = v
+				default:
+					c.JavaStringCheckUtf8 = v
+				}
+				out = append(out, c)
+			}
+		}
+	}
+	shapes := func(d, o1, o2 string, needDefault bool) []V1Option {
+		s := []V1Option{
+			{Default: d},
+			{Default: d, Except: []string{moduleOne}},
+			{Default: d, Except: []string{moduleTwo}},
+			{Default: d, Override: map[string]string{moduleOne: o1}},
+			{Default: d, Override: map[string]string{moduleOne: o1, moduleTwo: o2}},
+			{Default: d, Except: []string{moduleTwo}, Override: map[string]string{moduleOne: o1}},
+			{Default: d, Except: []string{moduleOne, moduleTwo}},
+		}
+		if !needDefault {
+			s = append(s,
+				V1Option{Except: []string{moduleOne}},
+				V1Option{Override: map[string]string{moduleOne: o1}},
+				V1Option{Except: []string{moduleTwo}, Override: map[string]string{moduleOne: o1}},
+			)
+		}
+		return s
+	}
+	for _, sh := range shapes("pre1", "pre2", "pre3", true) {
+		for _, pf := range perFile("java_package", "ov.file") {
+			out = append(out, V1Config{Enabled: true, JavaPackagePrefix: sh, PerFile: pf})
+		}
+	}
+	out = append(out, V1Config{Enabled: true, JavaPackagePrefix: V1Option{Default: "plain"}, JavaPackagePlain: true})
+	for _, sh := range shapes("example.com/gp1", "example.com/gp2", "example.com/gp3", true) {
+		for _, pf := range perFile("go_package", "example.com/file;filepb") {
+			out = append(out, V1Config{Enabled: true, GoPackagePrefix: sh, PerFile: pf})
+		}
+	}
+	for _, sh := range shapes("CODE_SIZE", "LITE_RUNTIME", "SPEED", true) {
+		for _, pf := range perFile("optimize_for", "SPEED", "LITE_RUNTIME") {
+			out = append(out, V1Config{Enabled: true, OptimizeFor: sh, PerFile: pf})
+		}
+	}
+	out = append(out, V1Config{Enabled: true, OptimizeFor: V1Option{Default: "LITE_RUNTIME"}, OptimizeForPlain: true})
+	for _, sh := range shapes("OV1", "OV2", "OV3", false) {
+		for _, pf := range perFile("objc_class_prefix", "OVF") {
+			out = append(out, V1Config{Enabled: true, ObjcClassPrefix: sh, PerFile: pf})
+		}
+	}
+	noDefault := func(o1, o2 string) []V1Option {
+		return []V1Option{
+			{Except: []string{moduleOne}},
+			{Override: map[string]string{moduleOne: o1}},
+			{Override: map[string]string{moduleOne: o1, moduleTwo: o2}},
+			{Except: []string{moduleTwo}, Override: map[string]string{moduleOne: o1}},
+		}
+	}
+	for _, sh := range noDefault("Ov1.Ns", "Ov2.Ns") {
+		for _, pf := range perFile("csharp_namespace", "File.Ns") {
+			out = append(out, V1Config{Enabled: true, CsharpNamespace: sh, PerFile: pf})
+		}
+	}
+	for _, sh := range noDefault("Ov1::Ns", "Ov2::Ns") {
+		for _, pf := range perFile("ruby_package", "File::Ns") {
+			out = append(out, V1Config{Enabled: true, RubyPackage: sh, PerFile: pf})
+		}
+	}
+	// options that only exist as per-file overrides in v1
+	for opt, v := range map[string]string{"java_outer_classname": "FileOuter", "php_namespace": `File\Ns`, "php_metadata_namespace": `File\Meta`} {
+		for _, pf := range perFile(opt, v)[1:] {
+			out = append(out, V1Config{Enabled: true, PerFile: pf})
+		}
+	}
+	// everything at once
+	for k := 0; k < 7; k++ {
+		for _, withFiles := range []bool{false, true} {
+			for _, enabled := range []bool{true, false} {
+				c := V1Config{
+					Enabled:             enabled,
+					CcEnableArenas:      []string{"false", "true", ""}[k%3],
+					JavaMultipleFiles:   []string{"false", "", "true"}[k%3],
+					JavaStringCheckUtf8: []string{"true", "false", ""}[k%3],
+					JavaPackagePrefix:   shapes("pre1", "pre2", "pre3", true)[k%7],
+					GoPackagePrefix:     shapes("example.com/gp1", "example.com/gp2", "example.com/gp3", true)[(k+1)%7],
+					OptimizeFor:         shapes("CODE_SIZE", "LITE_RUNTIME", "SPEED", true)[(k+2)%7],
+					ObjcClassPrefix:     shapes("OV1", "OV2", "OV3", false)[(k+3)%10],
+					CsharpNamespace:     noDefault("Ov1.Ns", "Ov2.Ns")[k%4],
+					RubyPackage:         noDefault("Ov1::Ns", "Ov2::Ns")[(k+1)%4],
+				}
+				if withFiles {
+					c.PerFile = map[string]map[string]string{
+						"java_package":         {pathFile: "ov.file"},
+						"go_package":           {pathFile: "example.com/file;filepb"},
+						"optimize_for":         {pathFile: "SPEED"},
+						"cc_enable_arenas":     {pathFile: "true", half: "false"},
+						"java_outer_classname": {half: "FileOuter"},
+						"csharp_namespace":     {pathFile: "File.Ns"},
+					}
+				}
+				out = append(out, c)
+			}
+		}
+	}
+	return out
+}
+
+func parseManaged(text string) (bufconfig.GenerateManagedConfig, error) {
+	f, err := bufconfig.ReadBufGenYAMLFile(strings.NewReader(text))
+	if err != nil {
+		return nil, err
+	}
+	return f.GenerateConfig().GenerateManagedConfig(), nil
+}
+
+type runner struct {
+	r       *evid.Run
+	ck      *checker
+	masters []*master
+}
+
+// runCase applies one configuration (given as text + its abstract meaning) to every image.
+func (x *runner) runCase(idx int, form, text string, cfg Config) {
+	managed, err := parseManaged(text)
+	if err != nil {
+		x.ck.st.parseErrors.Add(1)
+		x.r.Incomplete(fmt.Sprintf("harness: generated %s configuration rejected by buf: %v\n%s", form, err, text))
+		return
+	}
+	for _, m := range x.masters {
+		img, err := bufimage.CloneImage(m.Image)
+		if err != nil {
+			x.r.Incomplete("harness: CloneImage: " + err.Error())
+			return
+		}
+		ci := caseInfo{Image: m.Spec.Name, Form: form, Config: text}
+		x.r.Eval(1)
+		x.ck.st.cases.Add(1)
+		if form == "v1" {
+			x.ck.st.casesV1.Add(1)
+		} else {
+			x.ck.st.casesV2.Add(1)
+		}
+		if !cfg.Enabled {
+			x.ck.st.casesManagedOff.Add(1)
+		}
+		if err := bufimagemodify.Modify(img, managed); err != nil {
+			x.r.Violate("modify/error", fmt.Sprintf("Modify returned an error for a valid configuration: %v", err), ci)
+			continue
+		}
+		nontrivial := false
+		files := img.Files()
+		if len(files) != len(m.Files) {
+			x.r.Violate("frame/file-set-changed", fmt.Sprintf("%d files before, %d after", len(m.Files), len(files)), ci)
+			continue
+		}
+		for i, f := range files {
+			mf := m.Files[i]
+			if f.Path() != mf.Path {
+				x.r.Violate("frame/file-set-changed", fmt.Sprintf("file %d is %s, was %s", i, f.Path(), mf.Path), ci)
+				break
+			}
+			orig := m.Image.Files()[i]
+			if f.IsImport() != orig.IsImport() || f.IsSyntaxUnspecified() != orig.IsSyntaxUnspecified() || f.ExternalPath() != orig.ExternalPath() ||
+				(f.FullName() == nil) != (orig.FullName() == nil) || (f.FullName() != nil && f.FullName().String() != orig.FullName().String()) {
+				x.r.Violate("frame/image-file-metadata-changed", "image file metadata of "+f.Path()+" differs from the input", ci)
+			}
+			if x.ck.checkFile(ci, m, mf, f.FileDescriptorProto(), cfg) {
+				nontrivial = true
+			}
+		}
+		if nontrivial {
+			x.r.Distinct(m.Spec.Name + "\x00" + text)
+		}
+		x.r.SampleEvery(idx, 7919, func() any {
+			return map[string]any{"image": m.Spec.Name, "form": form, "buf_gen_yaml": text, "nontrivial": nontrivial}
+		})
+	}
+}
+
+func run(r *evid.Run) {
+	ctx := context.Background()
+	quick := r.Quick()
+	r.Rule("case = (fixture image, managed configuration text). v2 space: per governed option family every override sequence of length <=2 (thorough: <=3 for families with prefix/suffix) over {option, option_prefix, option_suffix} x scopes {all, dir, file, module one, module two, WKT dir} (x both bool values / 2-3 enum values; jstype also by field and field+path), crossed with every set of <=2 disable rules over the family-relevant alphabet {path, module, file_option value/prefix/suffix, file_option+module, file_option+path, an unrelated file_option, field_option jstype, field}; plus a cross-family space (every governed key overridden at once in both orders x every set of <=2 disables over the union alphabet), the same with managed mode off, and a v1 space ({default, except, override} shapes x per-file overrides per option, and all options at once). A case is distinct non-trivial when at least one governed option was rewritten or an exemption (disable rule, WKT, non-64-bit field) suppressed a rewrite; key = image + configuration text.")
+	r.Assume("override values are non-empty strings; empty-string overrides are not enumerated")
+	r.Assume("the documented default values of managed mode for the fixture files are written down by hand in images.go and also compared with the rule-free run")
+	r.Assume("v1beta1 buf.gen.yaml and ModifyPreserveExisting (not used by the CLI) are out of scope; `buf generate` with a recording plugin is not run here")
+	r.Assume("a disable rule that names only a field exempts that field's options, not file options (bufconfig.ManagedDisableRule doc: FieldName is 'the field to disable managed mode for')")
+
+	x := &runner{r: r, ck: &checker{r: r, st: &stats{}}}
+	for _, spec := range imageSpecs() {
+		m, err := buildMaster(ctx, spec)
+		if err != nil {
+			r.Incomplete("harness: " + err.Error())
+			return
+		}
+		x.masters = append(x.masters, m)
+	}
+	// ---- baseline: the rule-free configuration, and the hand-written defaults
+	base := Config{Enabled: true}
+	baseManaged, err := parseManaged(base.RenderV2())
+	if err != nil {
+		r.Incomplete("harness: baseline config: " + err.Error())
+		return
+	}
+	literalChecked := 0
+	for _, m := range x.masters {
+		img, err := bufimage.CloneImage(m.Image)
+		if err == nil {
+			err = bufimagemodify.Modify(img, baseManaged)
+		}
+		if err != nil {
+			r.Incomplete("harness: baseline run: " + err.Error())
+			return
+		}
+		for i, f := range img.Files() {
+			mf := m.Files[i]
+			states := map[string]optState{}
+			for j := range families {
+				fam := &families[j]
+				states[fam.Value] = fileOptState(f.FileDescriptorProto(), fam)
+				before := fileOptState(mf.Desc, fam)
+				ci := caseInfo{Image: m.Spec.Name, Form: "v2", Config: base.RenderV2(), File: mf.Path, Option: fam.Value, Before: before, After: states[fam.Value]}
+				if mf.Lit.WKT {
+					continue
+				}
+				want, has := mf.Lit.Defaults[fam.Value]
+				if fam.Kind != kindString {
+					want, has = fam.DefaultLiteral, true
+				}
+				literalChecked++
+				if has && states[fam.Value].Value != want {
+					ci.Expect = want
+					r.Violate("default-literal/"+fam.Value, fmt.Sprintf("rule-free managed mode gives %s=%q for %s; documented default is %q", fam.Value, states[fam.Value].Value, mf.Path, want), ci)
+				}
+				if !has && states[fam.Value] != before {
+					r.Violate("default-literal/"+fam.Value, fmt.Sprintf("rule-free managed mode changed %s of %s to %+v; no default is documented for it", fam.Value, mf.Path, states[fam.Value]), ci)
+				}
+			}
+			m.Baseline[mf.Path] = states
+		}
+	}
+	r.Set("default_literals_checked", literalChecked)
+
+	// ---- the work list
+	blocks := familyBlocks(quick)
+	cross := crossConfigs(quick)
+	v1 := v1Configs()
+	offsets := make([]int, len(blocks)+1)
+	blockSizes := map[string]int{}
+	for i, b := range blocks {
+		offsets[i+1] = offsets[i] + b.size()
+		blockSizes[b.Name] = b.size()
+	}
+	nFamily := offsets[len(blocks)]
+	total := nFamily + 2*len(cross) + len(v1)
+	r.Set("configs_family_blocks", nFamily)
+	r.Set("configs_per_family_block", blockSizes)
+	r.Set("configs_cross_family", len(cross))
+	r.Set("configs_managed_off", len(cross))
+	r.Set("configs_v1", len(v1))
+	r.Set("images", len(x.masters))
+
+	r.ParallelFor(total, 0, func(i int) {
+		switch {
+		case i < nFamily:
+			bi := 0
+			for offsets[bi+1] <= i {
+				bi++
+			}
+			cfg := blocks[bi].config(i - offsets[bi])
+			x.runCase(i, "v2", cfg.RenderV2(), cfg)
+		case i < nFamily+len(cross):
+			cfg := cross[i-nFamily]
+			x.runCase(i, "v2", cfg.RenderV2(), cfg)
+		case i < nFamily+2*len(cross):
+			cfg := cross[i-nFamily-len(cross)]
+			cfg.Enabled = false
+			x.runCase(i, "v2", cfg.RenderV2(), cfg)
+		default:
+			v := v1[i-nFamily-2*len(cross)]
+			x.runCase(i, "v1", v.RenderV1(), v.ToConfig())
+		}
+	})
+
+	// managed off: the whole image proto is equal too (one direct check per image, outside the loop)
+	for _, m := range x.masters {
+		off := Config{Enabled: false, Overrides: []Override{{FileOption: "java_package", Value: "x.y"}}, Disables: []Disable{{Path: pathDir}}}
+		managed, err := parseManaged(off.RenderV2())
+		if err != nil {
+			r.Incomplete("harness: " + err.Error())
+			continue
+		}
+		img, _ := bufimage.CloneImage(m.Image)
+		beforeProto, err1 := bufimage.ImageToProtoImage(m.Image)
+		if err := bufimagemodify.Modify(img, managed); err != nil {
+			r.Violate("modify/error", err.Error(), caseInfo{Image: m.Spec.Name, Config: off.RenderV2()})
+			continue
+		}
+		afterProto, err2 := bufimage.ImageToProtoImage(img)
+		if err1 != nil || err2 != nil {
+			r.Incomplete("harness: ImageToProtoImage failed")
+			continue
+		}
+		r.Eval(1)
+		if !proto.Equal(beforeProto, afterProto) {
+			r.Violate("managed-off/image-changed", "managed mode disabled but the image proto differs", caseInfo{Image: m.Spec.Name, Config: off.RenderV2()})
+		}
+	}
+
+	st := x.ck.st
+	cov := map[string]int64{
+		"cases":                                  st.cases.Load(),
+		"cases_v2":                               st.casesV2.Load(),
+		"cases_v1":                               st.casesV1.Load(),
+		"cases_managed_off":                      st.casesManagedOff.Load(),
+		"file_options_rewritten":                 st.fileOptRewritten.Load(),
+		"jstype_rewritten":                       st.jstypeRewritten.Load(),
+		"rewritten_to_default":                   st.byDefault.Load(),
+		"rewritten_to_last_override":             st.byOverride.Load(),
+		"rewritten_to_prefix_suffix_composition": st.byAffix.Load(),
+		"several_overrides_match_last_differs":   st.lastOverrideWins.Load(),
+		"rewrite_suppressed_by_disable_rule":     st.disableSuppressed.Load(),
+		"rewrite_suppressed_because_wkt":         st.wktProtected.Load(),
+		"jstype_skipped_not_64bit":               st.not64Skipped.Load(),
+		"input_already_has_managed_value":        st.alreadyEqualKept.Load(),
+		"srcinfo_option_locations_removed":       st.sciOptionLocRemoved.Load(),
+		"srcinfo_option_statements_removed":      st.sciStatementRemoved.Load(),
+		"srcinfo_field_option_roots_removed":     st.sciFieldRootRemoved.Load(),
+		"srcinfo_field_option_roots_kept":        st.sciRootKept.Load(),
+		"srcinfo_files_with_nothing_to_remove":   st.sciFilesUntouched.Load(),
+		"frame_file_comparisons":                 st.frameFilesCompared.Load(),
+		"config_parse_errors":                    st.parseErrors.Load(),
+	}
+	r.Set("clauses", cov)
+	for _, k := range []string{"rewritten_to_default", "rewritten_to_last_override", "rewritten_to_prefix_suffix_composition", "several_overrides_match_last_differs",
+		"rewrite_suppressed_by_disable_rule", "rewrite_suppressed_because_wkt", "jstype_rewritten", "jstype_skipped_not_64bit", "input_already_has_managed_value",
+		"srcinfo_option_locations_removed", "srcinfo_field_option_roots_removed", "srcinfo_field_option_roots_kept", "cases_v1", "cases_managed_off"} {
+		if cov[k] == 0 && !r.Expired() {
+			r.Incomplete("clause never exercised: " + k)
+		}
+	}
+}
